@@ -261,6 +261,9 @@ impl Tree {
 }
 
 impl Family for Tree {
+    fn ambient(&self, idx: u64) -> u64 {
+        crate::engine::rot(idx)
+    }
     fn name(&self) -> String {
         format!("{}-tree-depth-{}", self.label, self.depth)
     }
@@ -468,6 +471,9 @@ pub struct Histories {
 }
 
 impl Family for Histories {
+    fn ambient(&self, idx: u64) -> u64 {
+        crate::engine::rot(idx)
+    }
     fn name(&self) -> String {
         format!("{}-long-histories", self.label)
     }
